@@ -191,6 +191,9 @@ pub enum Case {
     /// (same directory and capacity), 1 a plain handle on an unrelated directory, 2 a sharded one, 3 a stacked
     /// cache through the builder.  Building a handle is not a write and may not use up, or restart, the window.
     Rebuilt { k: usize, mode: u8, draw: u64 },
+    /// fresh-key writes while every listing of the cache directory is refused with `errno` (descriptors or memory
+    /// exhausted): a write whose maintenance was due and could not run may fail, but it may not insert anyway
+    DeniedListing { k: usize, errno: i32, draw: u64 },
 }
 
 impl Case {
@@ -205,6 +208,7 @@ impl Case {
             Case::Linked { k, source_kind, draw } => json!({"kind": "linked", "k": k.to_string(), "source_kind": source_kind, "draw": draw.to_string()}),
             Case::Family { k, mode, draw } => json!({"kind": "family", "k": k.to_string(), "mode": mode, "draw": draw.to_string()}),
             Case::Rebuilt { k, mode, draw } => json!({"kind": "rebuilt", "k": k.to_string(), "mode": mode, "draw": draw.to_string()}),
+            Case::DeniedListing { k, errno, draw } => json!({"kind": "denied_listing", "k": k.to_string(), "errno": errno, "draw": draw.to_string()}),
         }
     }
     fn from_json(v: &Value) -> Case {
@@ -222,6 +226,7 @@ impl Case {
             "broken_temp" => Case::BrokenTemp { k, writes: v["writes"].as_u64().unwrap() as u32, draw: num(&v["draw"]) },
             "linked" => Case::Linked { k, source_kind: v["source_kind"].as_u64().unwrap() as u8, draw: num(&v["draw"]) },
             "spelled" => Case::Spelled { k, spelling: v["spelling"].as_u64().unwrap() as usize, draw: num(&v["draw"]) },
+            "denied_listing" => Case::DeniedListing { k, errno: v["errno"].as_i64().unwrap() as i32, draw: num(&v["draw"]) },
             "rebuilt" => Case::Rebuilt { k, mode: v["mode"].as_u64().unwrap() as u8, draw: num(&v["draw"]) },
             "huge" => Case::Huge { k, draw: num(&v["draw"]), writes: v["writes"].as_u64().unwrap() as u32 },
             _ => Case::Family { k, mode: v["mode"].as_u64().unwrap() as u8, draw: num(&v["draw"]) },
@@ -506,6 +511,51 @@ pub fn run_case(case: &Case, rep: &mut Report) -> Vec<(String, String)> {
                 }
             }
         }
+        Case::DeniedListing { k, errno, draw } => {
+            struct DenyListing {
+                dir: String,
+                errno: i32,
+            }
+            impl shim::Controller for DenyListing {
+                fn before(&self, ev: &Ev) -> shim::Action {
+                    if ev.kind == Kind::Opendir && ev.path.as_deref() == Some(self.dir.as_str()) {
+                        shim::Action::Fail(self.errno)
+                    } else {
+                        shim::Action::Proceed
+                    }
+                }
+            }
+            let p = period(*k as u128) as usize;
+            let mut w = Writer::new(&sc, *k);
+            verif_hooks::script_trigger_draws(&[], Some(*draw));
+            verif_hooks::set_trigger_counter(0);
+            let dir = w.dir.to_string_lossy().into_owned();
+            shim::set_controller(Some(std::sync::Arc::new(DenyListing { dir: dir.clone(), errno: *errno })));
+            for i in 0..(3 * (k + p) + 6) {
+                let before_n = w.file_count();
+                let (r, _ran, _before, trace) = w.write(&format!("key{}", i), i % 2 == 0);
+                rep.transitions += trace.len() as u64;
+                if let Err(pmsg) = &r {
+                    bad.push(("panic".into(), format!("write {} panicked: {}", i, pmsg)));
+                    break;
+                }
+                let denied = trace.iter().any(|e| e.kind == Kind::Opendir && e.path.as_deref() == Some(dir.as_str()) && !e.ok());
+                let n = w.file_count();
+                if denied && matches!(r, Ok(Ok(()))) && n > before_n {
+                    bad.push((
+                        "inserted-without-maintenance".into(),
+                        format!("capacity {}: write {} was due to maintain, the listing of the directory was refused (errno {}), and the write inserted its file anyway ({} files)", k, i, errno, n),
+                    ));
+                    break;
+                }
+                // with a period of one write every write is due: nothing is ever inserted beyond the bound
+                if p == 1 && *k < 6 && n > k + p {
+                    bad.push(("too-many-files".into(), format!("capacity {}: {} files after write {} (bound {})", k, n, i, k + p)));
+                    break;
+                }
+            }
+            shim::set_controller(None);
+        }
         Case::Huge { k, draw, writes } => {
             let s = scale(*k as u128);
             let mut w = Writer::new(&sc, *k);
@@ -571,7 +621,7 @@ pub fn run(tier: Tier, shard: Shard, rep: &mut Report) {
          not a write and must not use up the window); fresh-key writes while .kismet_temp cannot be listed (it is a regular file): \
          the firing writes report the error but the directory is still pruned on schedule; fresh-key writes for capacities 0..=12 with the \
          directory named in 8 ways (absolute, relative, '.', the empty path, './cache/', 'cache//', 'cache/.', '../cache'); fresh-key writes for capacities 0..=12 whose values \
-         are symbolic links (to a file that stays, to a file deleted after the write, to a directory); capacities 0..=40 with a cache handle built by the writing thread between any two writes (its own again, an unrelated plain, sharded or stacked one) x 3 draws; capacities 2^63, 3*2^62, usize::MAX-2..=usize::MAX: small draws fire at the first write, 2^64-1 with 1000 writes never \
+         are symbolic links (to a file that stays, to a file deleted after the write, to a directory); capacities 0..=20 with every listing of the cache directory refused (EMFILE, ENFILE, ENOMEM, EIO, EACCES): a write that was due to maintain does not insert without having listed; capacities 0..=40 with a cache handle built by the writing thread between any two writes (its own again, an unrelated plain, sharded or stacked one) x 3 draws; capacities 2^63, 3*2^62, usize::MAX-2..=usize::MAX: small draws fire at the first write, 2^64-1 with 1000 writes never \
          panics. Every case is distinct. (4) One writer at capacity 2, 3, 5 over an over-full directory racing with an outsider that \
          deletes the oldest, a middle or the newest entry, or with a reader that looks every entry up (all schedules with <= 2 preemptions): the bound holds after the write.",
         kmax, smallk, seqlen, kmax
@@ -651,6 +701,14 @@ pub fn run(tier: Tier, shard: Shard, rep: &mut Report) {
         for mode in 0..2u8 {
             for draw in [u64::MAX, (scale(k as u128) as u64).saturating_mul(period(k as u128) as u64 - 1).saturating_add(1)] {
                 take(Case::Family { k, mode, draw }, rep);
+            }
+        }
+    }
+    // every listing of the directory refused (descriptors, memory): no insertion without the maintenance that was due
+    for k in 0..=kmax.min(20) {
+        for errno in [libc::EMFILE, libc::ENFILE, libc::ENOMEM, libc::EIO, libc::EACCES] {
+            for draw in [u64::MAX, 1u64] {
+                take(Case::DeniedListing { k, errno, draw }, rep);
             }
         }
     }
